@@ -118,7 +118,7 @@ fn gen_gs(rng: &mut Rng, name: &str) -> Gs {
     Gs { name: name.to_string(),
         address: if kind == 0 { rng.pick(&["", "not-an-ip", "10.0.0.256"]).to_string() } else { rng.pick(&["10.0.0.1", "10.1.2.3", "2001:db8::5", "::1"]).to_string() },
         ports: if kind == 1 { vec![] } else { (0..rng.range(1, 3)).map(|_| *rng.pick(&[7000u16, 7001, 25565, 1])).collect() },
-        state: rng.pick(&["Ready", "Ready", "Ready", "Allocated", "Shutdown", "Scheduled", "Unhealthy", "Reserved", "Creating"]).to_string(),
+        state: rng.pick(&["Ready", "Ready", "Ready", "Allocated", "Shutdown", "Scheduled", "Unhealthy", "Reserved", "Creating", "RequestReady"]).to_string(),
         counters: if rng.chance(1, 3) { Some(vec![("players".to_string(), if rng.chance(1, 4) { None } else { Some(rng.below(50) as u32) })]) } else { None },
         lists: if rng.chance(1, 4) { Some(vec![(rng.pick(&["rooms", "players"]).to_string(), (0..rng.below(3)).map(|i| format!("r{i}")).collect())]) } else { None },
         labels: if rng.chance(1, 2) { vec![("region".to_string(), rng.pick(&["eu", "us"]).to_string())] } else if rng.chance(1, 12) { vec![("state".to_string(), "label-wins".to_string())] } else { vec![] },
@@ -164,12 +164,14 @@ pub fn run(a: &Args) {
         let with_relist = !collision && (a.thorough && n % 4 == 0 || n % 6 == 3);
         let mut evs: Vec<Ev> = vec![];
         let mut live: Vec<String> = initial.iter().map(|g| g.name.clone()).collect();
+        let mut cur: BTreeMap<String, Gs> = initial.iter().map(|g| (g.name.clone(), g.clone())).collect();
         for i in 0..nev {
             let nm = *rng.pick(&names);
             let ev = if with_relist && i == nev / 2 {
                 let mut l: Vec<Gs> = vec![];
                 for nm in &names { if rng.chance(1, 2) { l.push(gen_gs(&mut rng, nm)); } }
                 live = l.iter().map(|g| g.name.clone()).collect();
+                cur = l.iter().map(|g| (g.name.clone(), g.clone())).collect();
                 if rng.chance(1, 2) {
                     // the first page of the interrupted attempt holds objects that are gone (or different) by the retry
                     let mut p1: Vec<Gs> = vec![];
@@ -177,8 +179,25 @@ pub fn run(a: &Args) {
                     Ev::RelistFail(p1, l)
                 } else { Ev::Relist(l) }
             } else if live.iter().any(|x| x == nm) {
-                match rng.below(5) { 0 | 1 => { live.retain(|x| x != nm); Ev::Delete(gen_gs(&mut rng, nm)) } 2 => Ev::Bookmark, _ => Ev::Modify(gen_gs(&mut rng, nm)) }
-            } else { live.push(nm.to_string()); Ev::Add(gen_gs(&mut rng, nm)) };
+                match rng.below(5) { 0 | 1 => { live.retain(|x| x != nm); Ev::Delete(gen_gs(&mut rng, nm)) } 2 => Ev::Bookmark,
+                    _ => {
+                        // half of the modifications keep address and ports and change only what is offered
+                        // WITH the address (state among the routable ones, counters, lists, labels)
+                        let g = match cur.get(nm) {
+                            Some(prev) if rng.chance(1, 2) => { let mut g = prev.clone();
+                                match rng.below(4) {
+                                    0 => g.state = if g.state == "Ready" { "Allocated".into() } else { "Ready".into() },
+                                    1 => g.counters = Some(vec![("players".to_string(), Some(rng.below(50) as u32))]),
+                                    2 => g.labels = vec![("region".to_string(), rng.pick(&["eu", "us", "ap"]).to_string())],
+                                    _ => g.lists = Some(vec![("rooms".to_string(), (0..rng.range(1, 3)).map(|i| format!("m{i}")).collect())]),
+                                }
+                                g }
+                            _ => gen_gs(&mut rng, nm),
+                        };
+                        cur.insert(nm.to_string(), g.clone());
+                        Ev::Modify(g)
+                    } }
+            } else { live.push(nm.to_string()); let g = gen_gs(&mut rng, nm); cur.insert(nm.to_string(), g.clone()); Ev::Add(g) };
             evs.push(ev);
         }
         if collision { evs = vec![Ev::Bookmark]; }
